@@ -96,7 +96,7 @@ def read_state(kind, path):
             problems.append("member-unreadable:%s" % type(e).__name__)
             continue
         members[n] = data
-        if storesys.etag_scheme(kind, data) != et:
+        if storesys.scheme_holds(kind) and storesys.etag_scheme(kind, data) != et:
             problems.append("etag-does-not-match-content")
         if n.endswith(".ics"):
             try:
